@@ -425,6 +425,8 @@ CHECKS["C18"]["runs"] = CHECKS["C18"]["runs"] + [LLSEG9]
 CHECKS["C06"]["runs"] = CHECKS["C06"]["runs"] + [
     {"name": "conc.reload.segcount12", "files": C06F, "fn": "VerifH_C06_reload", "workers": 16, "params": {"SEGCOUNT": 12}, "params_quick": {"K": 3}, "params_thorough": {"K": 4},
      "reach": ["answered", "blocked", "end"], "budget_quick": 900, "budget_thorough": 7200, "replay_timeout": 120}]
+# C09 relies on the served TARGETDURATION being positive (the summary used in the co-simulation has the floor; this ties it to the real code)
+CHECKS["C09"]["runs"] = CHECKS["C09"]["runs"] + [{"name": "lemma.targetDuration.table", "files": C03L, "fn": "VerifH_C03_targetDuration", "workers": 1, "reach": ["end"]}]
 # the client half of C09 under a sliding live window (assertions carry C11's label)
 CHECKS["C09"]["runs"] = CHECKS["C09"]["runs"] + [dict([r for r in CHECKS["C11"]["runs"] if r["name"] == "run.cli.traditional"][0], name="client.traditional", prop="C11")]
 
